@@ -518,6 +518,9 @@ def gen_dtc(rng, n, nrec_max=6):
             tol, ign = rng.random() < 0.6, rng.random() < 0.6
         k = rng.choice([1, 2, 2, 2, 3, 8]) if g in ('snapdtc', 'snaprec') else 2
         nrec = rng.choice([0, 1, 1, 2, 3, rng.randrange(0, nrec_max + 1)])
+        fixed = idx < len(combos)
+        if fixed and sf == 0x03:
+            nrec = 3        # whatever the seed: a DTC that comes back after a record of another one (A, B, A)
         ms = rng.randrange(256)
         p = {}
         recs = []
@@ -575,7 +578,7 @@ def gen_dtc(rng, n, nrec_max=6):
             order = []
             for i in range(nrec):
                 idb, x = nz(3), rng.randrange(256)
-                if sf == 0x03 and order and rng.random() < 0.3:
+                if sf == 0x03 and order and (rng.random() < 0.3 or (fixed and i == 2)):
                     idb = order[0].to_bytes(3, 'big')
                 body += idb + bytes([x])
                 did_ = int.from_bytes(idb, 'big')
